@@ -7,11 +7,21 @@ namespace MagpyVerif.Gen.Setters
 raises, returns, branches and loops -/
 inductive Stmt where
   | assign (target : String) (isAttr : Bool) (callees : List String)
+  /-- `<loop element>.attr = …`: the target carries the loop's iterable -/
+  | assignElem (target : String) (callees : List String)
+  /-- `local = obj.attr` (no call): a reference kept for later -/
+  | save (loc src : String)
+  /-- `obj.attr = local` -/
+  | restore (target loc : String)
   | expr (callees : List String)
   | raise (exc : String)
   | ret (callees : List String)
   | ite (testCallees : List String) (thn els : List Stmt)
   | loop (iterCallees : List String) (body : List Stmt)
+  /-- `try: body / except <excType>: handler` (one handler, no else / finally) -/
+  | tryExcept (body : List Stmt) (excType : String) (handler : List Stmt)
+  /-- `self._helper(args)` as a statement, helper defined in the same class: its body -/
+  | inline (callee : String) (argCallees : List String) (body : List Stmt)
   | skip (what : String)
   deriving Repr
 
@@ -25,20 +35,20 @@ structure Setter where
 
 /-- every `@x.setter` of magpylib/_src/obj_classes/class_*.py -/
 def setters : List Setter := [
-  ⟨"class_BaseExcitations.py", "BaseSource", "field_func", "val", [.ite [] [.expr ["validate_field_func"]] [.raise "AttributeError"], .assign "self._field_func" true []]⟩,
-  ⟨"class_BaseExcitations.py", "BaseMagnet", "magnetization", "mag", [.assign "self._magnetization" true ["check_format_input_vector"], .ite [] [.assign "self._polarization" true [], .ret []] [], .assign "self._polarization" true [], .ite ["np.linalg.norm"] [.expr ["self._magnetization_low_warning"]] []]⟩,
+  ⟨"class_BaseExcitations.py", "BaseSource", "field_func", "val", [.ite [] [.expr ["validate_field_func"]] [.raise "AttributeError"], .restore "self._field_func" "val"]⟩,
+  ⟨"class_BaseExcitations.py", "BaseMagnet", "magnetization", "mag", [.assign "self._magnetization" true ["check_format_input_vector"], .ite [] [.assign "self._polarization" true [], .ret []] [], .assign "self._polarization" true [], .ite ["np.linalg.norm"] [.inline "self._magnetization_low_warning" [] [.expr ["warnings.warn"]]] []]⟩,
   ⟨"class_BaseExcitations.py", "BaseMagnet", "polarization", "mag", [.assign "self._polarization" true ["check_format_input_vector"], .ite [] [.assign "self._magnetization" true [], .ret []] [], .assign "self._magnetization" true []]⟩,
   ⟨"class_BaseExcitations.py", "BaseCurrent", "current", "current", [.assign "self._current" true ["check_format_input_scalar"]]⟩,
   ⟨"class_BaseGeo.py", "BaseGeo", "parent", "inp", [.skip "ImportFrom", .ite ["isinstance"] [.expr ["inp.add"]] [.ite [] [.ite [] [.expr ["self._parent.remove"]] [], .assign "self._parent" true []] [.raise "MagpylibBadUserInput"]]]⟩,
-  ⟨"class_BaseGeo.py", "BaseGeo", "position", "inp", [.assign "old_pos" false [], .assign "self._position" true ["check_format_input_vector"], .assign "oriQ" false ["self._orientation.as_quat"], .assign "self._orientation" true ["pad_slice_path", "R.from_quat"], .loop ["getattr"] [.assign "old_pos" false ["pad_slice_path"], .assign "child_pos" false ["pad_slice_path"], .assign "rel_child_pos" false [], .assign "child.position" true []]]⟩,
-  ⟨"class_BaseGeo.py", "BaseGeo", "orientation", "inp", [.assign "old_oriQ" false ["self._orientation.as_quat"], .assign "oriQ" false ["check_format_input_orientation"], .assign "self._orientation" true ["R.from_quat"], .assign "self._position" true ["pad_slice_path"], .loop ["getattr"] [.assign "child.position" true ["pad_slice_path"], .assign "old_ori_pad" false ["pad_slice_path", "np.squeeze", "R.from_quat"], .expr ["old_ori_pad.inv", "child.rotate"]]]⟩,
+  ⟨"class_BaseGeo.py", "BaseGeo", "position", "inp", [.save "old_pos" "self._position", .assign "self._position" true ["check_format_input_vector"], .assign "oriQ" false ["self._orientation.as_quat"], .assign "self._orientation" true ["pad_slice_path", "R.from_quat"], .loop ["getattr"] [.assign "old_pos" false ["pad_slice_path"], .assign "child_pos" false ["pad_slice_path"], .assign "rel_child_pos" false [], .assignElem "child.position [child in getattr(self, 'children', [])]" []]]⟩,
+  ⟨"class_BaseGeo.py", "BaseGeo", "orientation", "inp", [.assign "old_oriQ" false ["self._orientation.as_quat"], .assign "oriQ" false ["check_format_input_orientation"], .assign "self._orientation" true ["R.from_quat"], .assign "self._position" true ["pad_slice_path"], .loop ["getattr"] [.assignElem "child.position [child in getattr(self, 'children', [])]" ["pad_slice_path"], .assign "old_ori_pad" false ["pad_slice_path", "np.squeeze", "R.from_quat"], .expr ["old_ori_pad.inv", "child.rotate"]]]⟩,
   ⟨"class_BaseGeo.py", "BaseGeo", "style", "val", [.assign "self._style" true ["self._validate_style"]]⟩,
-  ⟨"class_Collection.py", "BaseCollection", "children", "children", [.expr ["list", "self._replace_children"]]⟩,
-  ⟨"class_Collection.py", "BaseCollection", "sources", "sources", [.assign "src_list" false ["format_obj_input"], .assign "removed" false [], .expr ["self._replace_children"]]⟩,
-  ⟨"class_Collection.py", "BaseCollection", "sensors", "sensors", [.assign "sens_list" false ["format_obj_input"], .assign "removed" false [], .expr ["self._replace_children"]]⟩,
-  ⟨"class_Collection.py", "BaseCollection", "collections", "collections", [.assign "coll_list" false ["format_obj_input"], .assign "removed" false [], .expr ["self._replace_children"]]⟩,
-  ⟨"class_Sensor.py", "Sensor", "pixel", "pix", [.assign "pixel" false ["range", "check_format_input_vector"], .ite [] [.raise "MagpylibBadUserInput"] [], .assign "self._pixel" true []]⟩,
-  ⟨"class_Sensor.py", "Sensor", "handedness", "val", [.ite ["isinstance"] [.raise "MagpylibBadUserInput"] [], .assign "self._handedness" true []]⟩,
+  ⟨"class_Collection.py", "BaseCollection", "children", "children", [.inline "self._replace_children" ["list"] [.save "old_children" "self._children", .loop [] [.assignElem "child._parent [child in removed]" []], .assign "self._children" true ["any"], .expr ["self._update_src_and_sens"], .tryExcept [.expr ["self.add"]] "Exception" [.restore "self._children" "old_children", .loop [] [.assignElem "child._parent [child in removed]" []], .expr ["self._update_src_and_sens"], .raise ""]]]⟩,
+  ⟨"class_Collection.py", "BaseCollection", "sources", "sources", [.assign "src_list" false ["format_obj_input"], .assign "removed" false [], .inline "self._replace_children" [] [.save "old_children" "self._children", .loop [] [.assignElem "child._parent [child in removed]" []], .assign "self._children" true ["any"], .expr ["self._update_src_and_sens"], .tryExcept [.expr ["self.add"]] "Exception" [.restore "self._children" "old_children", .loop [] [.assignElem "child._parent [child in removed]" []], .expr ["self._update_src_and_sens"], .raise ""]]]⟩,
+  ⟨"class_Collection.py", "BaseCollection", "sensors", "sensors", [.assign "sens_list" false ["format_obj_input"], .assign "removed" false [], .inline "self._replace_children" [] [.save "old_children" "self._children", .loop [] [.assignElem "child._parent [child in removed]" []], .assign "self._children" true ["any"], .expr ["self._update_src_and_sens"], .tryExcept [.expr ["self.add"]] "Exception" [.restore "self._children" "old_children", .loop [] [.assignElem "child._parent [child in removed]" []], .expr ["self._update_src_and_sens"], .raise ""]]]⟩,
+  ⟨"class_Collection.py", "BaseCollection", "collections", "collections", [.assign "coll_list" false ["format_obj_input"], .assign "removed" false [], .inline "self._replace_children" [] [.save "old_children" "self._children", .loop [] [.assignElem "child._parent [child in removed]" []], .assign "self._children" true ["any"], .expr ["self._update_src_and_sens"], .tryExcept [.expr ["self.add"]] "Exception" [.restore "self._children" "old_children", .loop [] [.assignElem "child._parent [child in removed]" []], .expr ["self._update_src_and_sens"], .raise ""]]]⟩,
+  ⟨"class_Sensor.py", "Sensor", "pixel", "pix", [.assign "pixel" false ["range", "check_format_input_vector"], .ite [] [.raise "MagpylibBadUserInput"] [], .restore "self._pixel" "pixel"]⟩,
+  ⟨"class_Sensor.py", "Sensor", "handedness", "val", [.ite ["isinstance"] [.raise "MagpylibBadUserInput"] [], .restore "self._handedness" "val"]⟩,
   ⟨"class_current_Circle.py", "Circle", "diameter", "dia", [.assign "self._diameter" true ["check_format_input_scalar"]]⟩,
   ⟨"class_current_Polyline.py", "Polyline", "vertices", "vert", [.assign "self._vertices" true ["check_format_input_vertices"]]⟩,
   ⟨"class_magnet_Cuboid.py", "Cuboid", "dimension", "dim", [.assign "self._dimension" true ["check_format_input_vector"]]⟩,
